@@ -6,6 +6,8 @@ import (
 	"strings"
 
 	sdk "github.com/cosmos/cosmos-sdk/types"
+
+	opchildtypes "github.com/initia-labs/OPinit/x/opchild/types"
 )
 
 // C09: L2 bridged supply is conserved; withdrawals burn exactly what they record; one gap-free
@@ -310,6 +312,35 @@ func (m *c09Mon) checkDeposit(i int, o L2Op, prev, cur L2View, wevs, devs []L2Ev
 	}
 }
 
+// c09Speculate pre-executes, in a branch of the state that is then DISCARDED (a simulation, a
+// CheckTx, a rejected proposal), first deposits of both bridged denoms naming base denoms that
+// differ from the ones the committed history will use, followed in the same branch by every
+// reader of the mapping: a refund (failing deposit), a user withdrawal, Query/BaseDenom.  Nothing
+// of this may influence the committed history: it is part of the scenario set-up (also on every
+// replay of the shrinker), not of the case's operations, and the model never sees it.
+func c09Speculate(sc *L2Scenario) {
+	e := sc.Env
+	saved := e.Ctx
+	branch, _ := saved.CacheContext()
+	e.Ctx = branch
+	exec := e.User(1).Str
+	seq := uint64(1)
+	for di, d := range sc.L2Denoms {
+		rcp := e.User(uint64(3 + di))
+		op := sc.Deposit(exec, seq, rcp.Str, di, big.NewInt(40), Hook{Kind: "none"})
+		op.Base = fmt.Sprintf("uspec%d", di)
+		e.L2Exec(op)
+		seq++
+		bad := sc.Deposit(exec, seq, "notanaddress", di, big.NewInt(5), Hook{Kind: "none"}) // refund path reads the mapping
+		bad.Base = op.Base
+		e.L2Exec(bad)
+		seq++
+		e.L2Exec(L2Op{Kind: "withdraw", Sender: rcp.Str, To: sc.L1Addrs[0], Denom: d, Amt: big.NewInt(3)})
+		_, _ = e.Q.BaseDenom(e.Ctx, &opchildtypes.QueryBaseDenomRequest{Denom: d})
+	}
+	e.Ctx = saved // the branch is dropped
+}
+
 func c09Amount(r *Rng) *big.Int {
 	switch r.Weighted([]int{6, 60, 20, 6, 8}) {
 	case 0:
@@ -342,6 +373,9 @@ func genC09(seed uint64, tier string, outdir string) *Report {
 			c.Track.Denoms = append(c.Track.Denoms, "l2/0000000000000000000000000000000000000000000000000000000000000000", "ufoo")
 			c.Bals, c.Sups, c.Pairs = nil, nil, nil
 			c.Snapshot()
+			if kk%3 != 2 {
+				c09Speculate(sc)
+			}
 			return sc
 		}
 		sc := fresh()
